@@ -88,12 +88,24 @@ def amen_divide(a, b, nswp = 22, x0 = None, eps = 1e-10,rmax = 100, max_full = 5
     N = b.N
     d = len(N)
     
+    # the quotient is linear in the numerator: the solver works with numerator cores of unit size (the norms taken below square
+    # their arguments, which under- / overflows for data of very small / large magnitude); the factors are put back at the end
+    b_scale = []
+    for c in b.cores:
+        m = float(tn.max(tn.abs(c))) if c.numel() > 0 else 0.0
+        b_scale.append(m if (m > 0 and np.isfinite(m)) else 1.0)
+    b_cores = [c / m for c, m in zip(b.cores, b_scale)]
+
     if x0 == None:
         rx = [1] + (d-1)*[2] + [1]
         x_cores = [ tn.ones([rx[k],N[k],rx[k+1]], dtype = dtype, device = device) for k in range(d)]
     else:
         x = x0
-        x_cores = x.cores.copy()
+        # (the initial guess is used as a direction only: cores of unit size as well)
+        x_cores = []
+        for c in x.cores:
+            m = float(tn.max(tn.abs(c))) if c.numel() > 0 else 0.0
+            x_cores.append(c / m if (m > 0 and np.isfinite(m)) else c + 0)
         rx = x.R.copy()
         
     # check if rmax is a list
@@ -136,7 +148,7 @@ def amen_divide(a, b, nswp = 22, x0 = None, eps = 1e-10,rmax = 100, max_full = 5
             if not last:
                 if swp > 0:
                     czA = local_product(Phiz[k+1],Phiz[k],a.cores[k],x_cores[k],x_cores[k].shape) # shape rzp x N x rz
-                    czy = tn.einsum('br,bnB,BR->rnR',Phiz_b[k],b.cores[k],Phiz_b[k+1]) # shape is rzp x N x rz
+                    czy = tn.einsum('br,bnB,BR->rnR',Phiz_b[k],b_cores[k],Phiz_b[k+1]) # shape is rzp x N x rz
                     cz_new = czy*nrmsc - czA
                     _,_,vz = SVD(tn.reshape(cz_new,[cz_new.shape[0],-1]))
                     cz_new = vz[:min(kickrank,vz.shape[0]),:].t() # truncate to kickrank
@@ -172,7 +184,7 @@ def amen_divide(a, b, nswp = 22, x0 = None, eps = 1e-10,rmax = 100, max_full = 5
             # update phis (einsum)
             # print(x_cores[k].shape,A.cores[k].shape,x_cores[k].shape)
             Phis[k] = compute_phi_bck_A(Phis[k+1],tn.conj(x_cores[k]),a.cores[k],x_cores[k])
-            Phis_b[k] = compute_phi_bck_rhs(Phis_b[k+1],b.cores[k],tn.conj(x_cores[k]))
+            Phis_b[k] = compute_phi_bck_rhs(Phis_b[k+1],b_cores[k],tn.conj(x_cores[k]))
             
             # ... and norms 
             norm = tn.linalg.norm(Phis[k])
@@ -190,7 +202,7 @@ def amen_divide(a, b, nswp = 22, x0 = None, eps = 1e-10,rmax = 100, max_full = 5
             # compute phis_z
             if not last:
                 Phiz[k] = compute_phi_bck_A(Phiz[k+1], tn.conj(z_cores[k]), a.cores[k], x_cores[k]) / normA[k-1]
-                Phiz_b[k] = compute_phi_bck_rhs(Phiz_b[k+1], b.cores[k], tn.conj(z_cores[k])) / normb[k-1]
+                Phiz_b[k] = compute_phi_bck_rhs(Phiz_b[k+1], b_cores[k], tn.conj(z_cores[k])) / normb[k-1]
 
 
         # start loop
@@ -203,7 +215,7 @@ def amen_divide(a, b, nswp = 22, x0 = None, eps = 1e-10,rmax = 100, max_full = 5
             
         
             # assemble rhs 
-            rhs = tn.einsum('br,bmB,BR->rmR',Phis_b[k] , b.cores[k] * nrmsc, Phis_b[k+1])
+            rhs = tn.einsum('br,bmB,BR->rmR',Phis_b[k] , b_cores[k] * nrmsc, Phis_b[k+1])
             rhs = tn.reshape(rhs,[-1,1])
             norm_rhs = tn.linalg.norm(rhs)
             
@@ -298,7 +310,7 @@ def amen_divide(a, b, nswp = 22, x0 = None, eps = 1e-10,rmax = 100, max_full = 5
 
             if not last:
                 czA = local_product(Phiz[k+1], Phiz[k], a.cores[k], tn.reshape(u@v.t(),[rx[k],N[k],rx[k+1]]), [rx[k],N[k],rx[k+1]]) # shape rzp x N x rz
-                czy = tn.einsum('br,bnB,BR->rnR',Phiz_b[k],b.cores[k]*nrmsc,Phiz_b[k+1]) # shape is rzp x N x rz
+                czy = tn.einsum('br,bnB,BR->rnR',Phiz_b[k],b_cores[k]*nrmsc,Phiz_b[k+1]) # shape is rzp x N x rz
                 cz_new = czy - czA
                 # print('Phiz_b',[plm.shape for plm in Phiz_b])
                 # print('czA',czA.shape,' czy',czy.shape)
@@ -317,7 +329,7 @@ def amen_divide(a, b, nswp = 22, x0 = None, eps = 1e-10,rmax = 100, max_full = 5
             if k < d-1:
                 if not last:
                     left_res = local_product(Phiz[k+1],Phis[k],a.cores[k],tn.reshape(u@v.t(),[rx[k],N[k],rx[k+1]]),[rx[k],N[k],rx[k+1]])
-                    left_b = tn.einsum('br,bmB,BR->rmR',Phis_b[k],b.cores[k]*nrmsc,Phiz_b[k+1])
+                    left_b = tn.einsum('br,bmB,BR->rmR',Phis_b[k],b_cores[k]*nrmsc,Phiz_b[k+1])
                     uk = left_b - left_res # rx_k x N_k x rz_k+1
                     u, Rmat = QR(tn.cat((u,tn.reshape(uk,[u.shape[0],-1])),1))
                     r_add = uk.shape[2]
@@ -344,7 +356,7 @@ def amen_divide(a, b, nswp = 22, x0 = None, eps = 1e-10,rmax = 100, max_full = 5
 
                 # next phis with norm correction
                 Phis[k+1] = compute_phi_fwd_A(Phis[k], tn.conj(x_cores[k]), a.cores[k], x_cores[k]) 
-                Phis_b[k+1] = compute_phi_fwd_rhs(Phis_b[k], b.cores[k],tn.conj(x_cores[k]))
+                Phis_b[k+1] = compute_phi_fwd_rhs(Phis_b[k], b_cores[k],tn.conj(x_cores[k]))
                 
                 # ... and norms 
                 norm = tn.linalg.norm(Phis[k+1])
@@ -363,7 +375,7 @@ def amen_divide(a, b, nswp = 22, x0 = None, eps = 1e-10,rmax = 100, max_full = 5
                 # next phiz
                 if not last:
                     Phiz[k+1] = compute_phi_fwd_A(Phiz[k], tn.conj(z_cores[k]), a.cores[k], x_cores[k]) / normA[k]
-                    Phiz_b[k+1] = compute_phi_fwd_rhs(Phiz_b[k], b.cores[k],tn.conj(z_cores[k])) / normb[k]
+                    Phiz_b[k+1] = compute_phi_fwd_rhs(Phiz_b[k], b_cores[k],tn.conj(z_cores[k])) / normb[k]
             else:
                 x_cores[k] = tn.reshape(u@tn.diag(s[:r]) @ v[:r,:].t(),[rx[k],N[k],rx[k+1]])
 
@@ -388,7 +400,7 @@ def amen_divide(a, b, nswp = 22, x0 = None, eps = 1e-10,rmax = 100, max_full = 5
     normx = np.exp(np.sum(np.log(normx))/d)
 
     for k in range(d):
-        x_cores[k] *= normx
+        x_cores[k] = x_cores[k] * (normx * b_scale[k])
 
     
 
